@@ -26,7 +26,7 @@ ASSUMPTIONS = [
     "an unchanged %rewrite unit is absent from the diff by design: the projection law is evaluated modulo such units",
     "order is compared inside %ordered groups only (call_diff_logic concatenates groups)",
 ]
-FLOORS = {"quick": {"diffs_compared": 3000, "moved_entries": 200, "rewrite_units_changed": 50, "text_views_checked": 3000, "self_diffs": 1000, "ignore_case_rulebooks": 400, "acl_diffs_compared": 600, "removals_of_not_deletable_rows": 100, "big_blocks_compared": 120, "diff_worker_runs": 600, "collapsed_device_groups_checked": 1500, "file_diff_texts_checked": 600},
+FLOORS = {"quick": {"diffs_compared": 3000, "moved_entries": 200, "rewrite_units_changed": 50, "text_views_checked": 3000, "self_diffs": 1000, "ignore_case_rulebooks": 400, "acl_diffs_compared": 600, "removals_of_not_deletable_rows": 100, "big_blocks_compared": 120, "diff_worker_runs": 600, "collapsed_device_groups_checked": 1500, "file_diff_texts_checked": 600, "rulebooks_with_global_rules_on_two_levels": 400, "diff_texts_of_several_devices_checked": 1500},
           "thorough": {"diffs_compared": 150000, "moved_entries": 10000, "rewrite_units_changed": 2500, "text_views_checked": 150000, "self_diffs": 50000, "ignore_case_rulebooks": 15000, "acl_diffs_compared": 25000, "removals_of_not_deletable_rows": 4000, "big_blocks_compared": 5000}}
 VENDORS = ["huawei", "h3c", "optixtrans", "cisco", "nexus", "iosxr", "arista", "b4com", "pc", "juniper", "ribbon", "nokia"]
 BRACE = {"juniper", "ribbon", "nokia"}
@@ -179,7 +179,7 @@ def _upper_some(rng, tree, level, inherited=()):
     return out
 
 
-def make_case(seed, icase=False):
+def make_case(seed, icase=False, gnest=False):
     rng = random.Random(seed)
     vname = VENDORS[rng.randrange(len(VENDORS))]
     v, prefix, exitw, hw, fmt = c01.vendor_env(vname)
@@ -191,6 +191,16 @@ def make_case(seed, icase=False):
             tgt.children.append(RB.Rule("i9 *", ignore=True))
         else:
             rules.insert(0, RB.Rule("i9 *", ignore=True))
+    gn_host = None
+    if gnest:
+        # %global rules on two nesting levels: an outer `gd ~ %global` at the top and, inside a block rule, an inner `gs * %global` of its own;
+        # rows of the outer family live inside such blocks (and below): the inner definition does not end the outer one
+        grng = random.Random(seed ^ 0x6E57)
+        hosts = [r for r in rules if r.children and not r.glob and not r.ignore and not r.ordered and not r.rewrite and not any(c.rewrite for c in r.children)]
+        if hosts:
+            gn_host = grng.choice(hosts)
+            rules.append(RB.Rule("gd ~", glob=True))
+            gn_host.children.append(RB.Rule("gs *", glob=True))
     old = G.gen_tree(rng, rules, foreign=0.2)
     if rng.random() < 0.3:
         _sprinkle(rng, old)
@@ -201,6 +211,22 @@ def make_case(seed, icase=False):
         new = G.gen_tree(rng, rules, foreign=0.2)
     else:
         new = old
+    if gn_host is not None:
+        from vf.ref import rulelang as R_
+        from collections import OrderedDict as odict_
+
+        def sow(tree, srng, top=True):
+            out = odict_()
+            for row, ch in tree.items():
+                ch = sow(ch, srng, False) if ch else odict_()
+                if (not top or R_.match(gn_host.pat, row) is not None) and not row.startswith(("gd ", "gs ")) and (ch or top) and srng.random() < 0.7:
+                    ch = odict_(ch)
+                    ch["gd k%d x%d" % (srng.randint(1, 3), srng.randint(1, 2))] = odict_()
+                out[row] = ch
+            return out
+        same = new is old
+        old = sow(old, random.Random(seed ^ 0x50E))
+        new = old if same else sow(new, random.Random(seed ^ 0x50F))
     if icase:
         # one %ignore_case leaf rule per level it lands on (its own rows stay lower-case: lower-casing them is the identity);
         # sibling rows carry upper-case words, which the diff must leave alone
@@ -224,16 +250,18 @@ def _sprinkle(rng, tree):
             _sprinkle(rng, tree[row])
 
 
-def check_case(seed, acc, icase=False):
+def check_case(seed, acc, icase=False, gnest=False):
     from annet.annlib.patching import make_diff, strip_unchanged, make_pre
     from annet.annlib.diff import gen_pre_as_diff
-    vname, rules, old, new = make_case(seed, icase)
+    vname, rules, old, new = make_case(seed, icase, gnest)
+    if gnest and any(r.pat == "gd ~" for r in rules):
+        acc.count("rulebooks_with_global_rules_on_two_levels")
     if icase and G.has_feature(rules, lambda r: "%ignore_case" in r.extra):
         acc.count("ignore_case_rulebooks")
     v, prefix, exitw, hw, fmt = c01.vendor_env(vname)
     text = RB.render(rules)
     po, pn = plain(old), plain(new)
-    w = {"seed": seed, "icase": icase, "vendor": vname, "rulebook": text, "old": po, "new": pn}
+    w = {"seed": seed, "icase": icase, "gnest": gnest, "vendor": vname, "rulebook": text, "old": po, "new": pn}
     try:
         rb = c01.compile_rb(text, vname)
         d = make_diff(old, new, rb, [])
@@ -315,6 +343,21 @@ def check_case(seed, acc, icase=False):
             if by != {("sw1", "sw3"), ("sw2",)}:
                 acc.violation("C03/devices-with-different-diffs-shown-together", "devices are grouped under one diff although their diffs differ in nesting (or equal diffs are not grouped)",
                               dict(w, groups=sorted(map(list, by))))
+            else:
+                # what `annet diff` prints for the run: the items are collected first and written out afterwards, each under its own devices
+                import types as _t
+                from annet.diff import gen_sort_diff
+                items = list(gen_sort_diff({d1: ds, d2: flatter, d3: ds}, _t.SimpleNamespace(no_collapse=False, show_rules=False, indent="  ", no_color=True)))
+                texts = {name: (t_ if isinstance(t_, str) else "".join(t_)) for name, t_, _ in items}
+                acc.count("diff_texts_of_several_devices_checked", len(texts))
+                want = {name: RD.canon(norm(df_)) for name, df_ in ((next(n_ for n_ in texts if "sw2" in n_), flatter), (next(n_ for n_ in texts if "sw1" in n_), ds))} if len(texts) == 2 else {}
+                for name, cn in want.items():
+                    if RD.canon(read_pre_diff(texts[name], "  ")) != cn:
+                        acc.violation("C03/diff-text-of-another-device", "in a run over several devices the text printed under a device is not that device's diff",
+                                      dict(w, label=name, text=texts[name].split("\n")[:30], expected=cn))
+                        break
+                if not want:
+                    acc.violation("C03/diff-text-of-another-device", "a run over three devices with two different diffs does not print two texts", dict(w, labels=sorted(texts)))
     except Exception as e:
         acc.violation("C03/text-exception/%s" % type(e).__name__, "rendering the diff raised", dict(w, error=repr(e)[:300]))
     return w
@@ -492,7 +535,7 @@ def run_shard(spec, acc):
         if spec["witness"].get("acl_case"):
             check_acl_case(spec["witness"]["seed"], acc)
             return
-        check_case(spec["witness"]["seed"], acc, icase=bool(spec["witness"].get("icase")))
+        check_case(spec["witness"]["seed"], acc, icase=bool(spec["witness"].get("icase")), gnest=bool(spec["witness"].get("gnest")))
         return
     tier, k, n = spec["tier"], spec["shard"], spec["nshards"]
     total = 8000 if tier == "quick" else 160000
@@ -503,6 +546,8 @@ def run_shard(spec, acc):
             acc.sample({k2: w[k2] for k2 in ("vendor", "rulebook", "old", "new", "diff")})
         if j % 5 == 4:
             check_case(rng.randrange(1 << 48), acc, icase=True)
+        if j % 5 == 3:
+            check_case(rng.randrange(1 << 48), acc, gnest=True)
         if j % 5 == 2:
             check_acl_case(rng.randrange(1 << 48), acc)
         if j % 25 == 3:
